@@ -51,19 +51,21 @@ def main():
         # keep the effective patch against current HEAD
         _, eff = sh(["git", "diff", "HEAD", "--", "src"], cwd=wt)
         demos = [f for f in glob.glob(os.path.join(src, "*.rs"))]
-        for d in demos:
-            shutil.copy(d, os.path.join(wt, "tests", os.path.basename(d)))
         demo_bins = [os.path.basename(d)[:-3] for d in demos]
         # touch sources so cargo (mtime based) rebuilds in the shared target dir
         for root, _d, files in os.walk(os.path.join(wt, "src")):
             for f in files:
                 os.utime(os.path.join(root, f))
-        flt = " and ".join(f"not binary({b})" for b in demo_bins) or "all()"
+        flt = "all()"  # (the demonstration is not in the tree yet)
         t0 = time.time()
         rc, out = sh(["cargo", "nextest", "run", "--workspace", "--no-fail-fast", "--offline", "--test-threads", "8", "-E", flt], cwd=wt, env=env)
         tail = out[-600:]
         result["suite_passes_with_change"] = rc == 0
         result["suite_tail"] = [l for l in tail.splitlines() if "Summary" in l or "tests run" in l]
+        # the demonstration joins the tree only now (it may fail by not compiling, which would
+        # otherwise take the suite's build down with it)
+        for d in demos:
+            shutil.copy(d, os.path.join(wt, "tests", os.path.basename(d)))
         demo_args = []
         for b in demo_bins:
             demo_args += ["--test", b]
